@@ -1,4 +1,5 @@
 import CatiiProofs.SchedProofs
+import CatiiModel.Gen.DriverGen
 /-!
 # C20 — an interrupt raised at any cancellation point stops the cube cleanly
 
@@ -55,5 +56,19 @@ example : calcSerial [(· + 1), (· + 2), (· + 4)] (fun i => if i = 1 then some
   have hj0 : j = 0 := by omega
   subst hj0
   rfl
+
+
+/-! ### what the CURRENT drivers look like (`Gen/DriverGen.lean`, regenerated from `ccube.calculate` / `xcube.calculate`) -/
+
+/-- `calcSerial` / `calcPooled` consult the callback first in every task, once; both drivers do: the task's first statement is
+`if self.check_interrupt is not None: self.check_interrupt()`, that is its only call site, the task has no early `return`,
+the serial branch is a plain loop over the product, the pooled branch re-raises what `pool.map` hands back, and the worker hands
+back exactly the exceptions `pool.map` itself would not deliver (`BaseException`s that are not `Exception`s) -/
+theorem generated_drivers_have_the_modelled_shape :
+    Gen.ccubeDriver.modelled ["intersection_data_points"] = true ∧ Gen.xcubeDriver.modelled ["_tracing"] = true := by decide
+
+theorem generated_callback_first_and_once :
+    Gen.ccubeDriver.callbackFirst = true ∧ Gen.ccubeDriver.callbackSites = 1 ∧ Gen.ccubeDriver.taskReturnsEarly = false ∧
+    Gen.xcubeDriver.callbackFirst = true ∧ Gen.xcubeDriver.callbackSites = 1 ∧ Gen.xcubeDriver.taskReturnsEarly = false := by decide
 
 end Catii.C20
